@@ -43,7 +43,7 @@ LoadLogs ==
 VARIABLES r, b, w, ds     \* cursors into RL, BL, WL (= DR), DS
 tvars == <<vars, r, b, w, ds>>
 
-TraceNoDoc == ""
+TraceNoDoc == "<no document>"   \* a value no generated document text equals (the empty text is a text)
 TraceApply(content, m) == m.v          \* the message carries the resulting text
 DocMethods == {"textDocument/declaration", "textDocument/definition", "textDocument/implementation",
                "textDocument/typeDefinition", "textDocument/references", "textDocument/hover", "textDocument/rename",
